@@ -128,13 +128,14 @@ def run(ck, m):
 
     # ---- R4 ----------------------------------------------------------------------------
     ui = m.get(W, "UrwidImage")
-    for rel, f in m.files.items():
-        for t, st in stores_in(f.tree, local=False):
+    for rel, _q, t, st in m.stores():
+
+        if True:
             if isinstance(t, ast.Attribute) and t.attr == "_ti_z_index":
                 ck.ob("R4", st, "self._ti_get_z_index()" in norm(st.value), f"`{short(st, 60)}`: a widget's z-index must come from the allocator", stmt=f"{getattr(st, '_q', '')}: _ti_z_index from allocator")
     al = m.get(W, "UrwidImage._ti_get_z_index")
     n_acc = 0
-    for n in ast.walk(m.tree(W)):
+    for n in m.walk(W):
         if isinstance(n, ast.Attribute) and n.attr in ("_ti_next_z_index", "_ti_free_z_indexes"):
             n_acc += 1
             q = getattr(enclosing_stmt(n), "_q", "")
@@ -145,7 +146,7 @@ def run(ck, m):
             if isinstance(n.ctx, ast.Store):
                 ck.ob("R4", enclosing_stmt(n), q.endswith("_ti_get_z_index"), f"`{norm(n)}` is written outside the allocator", stmt=f"{q}: only the allocator stores {n.attr}")
     ck.expect(n_acc >= 5, "allocator state accesses not found")
-    for c in ast.walk(m.tree(W)):
+    for c in m.walk(W):
         if isinstance(c, ast.Call) and isinstance(c.func, ast.Attribute) and isinstance(c.func.value, ast.Attribute) and c.func.value.attr == "_ti_free_z_indexes":
             q = getattr(enclosing_stmt(c), "_q", "")
             if c.func.attr == "add":
@@ -168,12 +169,12 @@ def run(ck, m):
 
     # ---- R5 ----------------------------------------------------------------------------
     n5 = 0
-    for t, st in stores_in(m.tree(W), local=False):
+    for _r, _q, t, st in m.stores(W):
         if isinstance(t, ast.Attribute) and t.attr == "_ti_image_cviews":
             n5 += 1
             ck.ob("R5", st, isinstance(st.value, ast.Call) and call_name(st.value) == "frozenset", f"`{short(st, 60)}` binds something other than a frozenset", stmt=f"{getattr(st, '_q', '')}: {short(st, 60)}")
     ck.expect(n5 >= 3, "stores of _ti_image_cviews not found")
-    for c in ast.walk(m.tree(W)):
+    for c in m.walk(W):
         if isinstance(c, ast.Call) and isinstance(c.func, ast.Attribute) and isinstance(c.func.value, ast.Attribute) and c.func.value.attr == "_ti_image_cviews":
             ck.ob("R5", enclosing_stmt(c), c.func.attr not in MUTATORS, f"`{short(c, 50)}` mutates a frozenset (AttributeError at run time)", stmt=f"{short(c, 50)} on a frozenset")
     # ---- R6 ----------------------------------------------------------------------------
